@@ -78,5 +78,5 @@ by rewrite e eqxx in lj.
 Qed.
 
 End Cauchy.
-Check c0.
-Print Assumptions c0.
+
+
